@@ -578,6 +578,9 @@ class Type:
         fields = {feature.name: attr.ib(default=None, repr=(feature.name != "sofa")) for feature in self.all_features}
         fields["type"] = attr.ib(default=self)
 
+        # Drop an instance class built earlier so that it is regenerated with the current set of features
+        self._constructor = None
+
         # We assign this to a lambda to make it lazy
         # When creating large type systems, almost no types are used so
         # creating them on the fly is on average better
